@@ -21,6 +21,15 @@ type c05U struct {
 	okScheme bool
 	okHost   bool
 	relative bool
+	port     string
+	req      string // the text of the request (URL.String(): query re-encoded); empty = same as canon
+}
+
+func (u c05U) reqText() string {
+	if u.req != "" {
+		return u.req
+	}
+	return u.canon
 }
 
 const c05Parent = "http://site.example/dir/page"
@@ -36,12 +45,19 @@ var c05Table = []c05U{
 	{raw: "http://good.example/a#frag", canon: "http://good.example/a", host: "good.example", okScheme: true, okHost: true},
 	{raw: "/rel/p.png", canon: "http://site.example/rel/p.png", host: "site.example", okScheme: true, okHost: true, relative: true},
 	{raw: "http://127.0.0.1/x", canon: "", host: "127.0.0.1", okScheme: true, okHost: false},
+	{raw: "http://127.0.0.1:8080/admin", canon: "", host: "127.0.0.1", port: ":8080", okScheme: true, okHost: false},
+	{raw: "http://localhost:9200/_cat", canon: "", host: "localhost", port: ":9200", okScheme: true, okHost: false},
+	{raw: "HTTP://Good.Example/Up", canon: "http://good.example/Up", host: "good.example", okScheme: true, okHost: true},
+	{raw: "//cdn.example/lib.js", canon: "http://cdn.example/lib.js", host: "cdn.example", okScheme: true, okHost: true, relative: true},
+	{raw: "'http://good.example/q'", canon: "http://good.example/q", host: "good.example", okScheme: true, okHost: true},
+	{raw: "/share?u=http://w.example/a", canon: "http://site.example/share?u=http://w.example/a", req: "http://site.example/share?u=http%3A%2F%2Fw.example%2Fa",
+		host: "site.example", okScheme: true, okHost: true, relative: true},
 }
 
 func c05RegisterAda() {
 	for _, u := range c05Table {
 		raw := u.raw
-		if len(raw) > 1 && raw[0] == '"' {
+		if len(raw) > 1 && (raw[0] == '"' || raw[0] == '\'') {
 			raw = raw[1 : len(raw)-1]
 		}
 		proto := "http:"
@@ -59,7 +75,10 @@ func c05RegisterAda() {
 		if len(raw) > 5 && raw[len(raw)-5:] == "#frag" {
 			withFr = href + "#frag"
 		}
-		o := verifmodel.AdaOutcome{Protocol: proto, Hostname: u.host, Href: href, HrefWithFr: withFr}
+		o := verifmodel.AdaOutcome{Protocol: proto, Hostname: u.host, Host: u.host + u.port, Href: href, HrefWithFr: withFr}
+		if raw == "HTTP://Good.Example/Up" {
+			raw = "http://Good.Example/Up" // NormalizeURL hands ada the text net/url re-serialised (scheme lower-cased)
+		}
 		if u.relative {
 			verifmodel.AdaTable[raw+"|http://site.example"] = o
 			verifmodel.AdaTable[raw+"|"+c05Parent] = o
@@ -93,11 +112,12 @@ func c05InScope(u c05U, cfg *config.Config) bool {
 	if !u.okScheme || !u.okHost || u.canon == "" {
 		return false
 	}
-	if c05Any(u.host, cfg.ExcludeHosts) || c05Any(u.canon, cfg.ExcludeString) {
+	// "matches the text" = the text of the URL that would be requested
+	if c05Any(u.host, cfg.ExcludeHosts) || c05Any(u.reqText(), cfg.ExcludeString) {
 		return false
 	}
 	if len(cfg.IncludeHosts) > 0 || len(cfg.IncludeString) > 0 {
-		return c05Any(u.host, cfg.IncludeHosts) || c05Any(u.canon, cfg.IncludeString)
+		return c05Any(u.host, cfg.IncludeHosts) || c05Any(u.reqText(), cfg.IncludeString)
 	}
 	return true
 }
@@ -112,8 +132,11 @@ func c05Config() *config.Config {
 		cfg.ExcludeHosts = append(cfg.ExcludeHosts, "bad.example")
 	}
 	cfg.ExcludeHosts = append(cfg.ExcludeHosts, "archive.org", "archive-it.org")
-	if verifrt.Choice("exclude-string", 2) == 1 {
+	switch verifrt.Choice("exclude-string", 3) {
+	case 1:
 		cfg.ExcludeString = []string{"skip-me"}
+	case 2:
+		cfg.ExcludeString = []string{"u=http%3A"} // matches only the re-encoded request text
 	}
 	if verifrt.Choice("include-host", 2) == 1 {
 		cfg.IncludeHosts = []string{"inc.example"}
@@ -184,7 +207,7 @@ func VerifH_C05_children() {
 				isPresent = true
 			}
 		}
-		dup := i == 1 && c05Table[idx[0]].canon == u.canon && u.canon != ""
+		dup := i == 1 && c05Table[idx[0]].reqText() == u.reqText() && u.canon != ""
 		if !in {
 			verifrt.Cover("out-of-scope-child")
 			verifrt.Assert(!isPresent, "C05 an out-of-scope asset or redirect target is dropped")
@@ -193,7 +216,7 @@ func VerifH_C05_children() {
 			verifrt.Cover("in-scope-child")
 			verifrt.Assert(isPresent && kids[i].GetStatus() == models.ItemPreProcessed, "C05 an in-scope child is prepared for fetching")
 			req := kids[i].GetURL().GetRequest()
-			verifrt.Assert(req != nil && req.URL.String() == u.canon, "C05 the request goes to the canonical URL the filters looked at")
+			verifrt.Assert(req != nil && req.URL.String() == u.reqText(), "C05 the request goes to the canonical URL the filters looked at")
 		}
 	}
 	for _, p := range present {
@@ -230,5 +253,42 @@ func VerifH_C05_seed() {
 		verifrt.Assert(seed.GetURL().GetRequest() == nil, "C05 no request is built for an out-of-scope URL")
 		st := seed.GetStatus()
 		verifrt.Assert(st == models.ItemFailed || st == models.ItemCompleted, "C05 an out-of-scope seed is finished without a fetch")
+	}
+}
+
+// VerifH_C09_normalize: NormalizeURL accepts exactly the URL shapes the statement allows and leaves an absolute
+// http(s) canonical text without fragment or surrounding quotes, re-parsed, in the URL.
+func VerifH_C09_normalize() {
+	c05RegisterAda()
+	k := verifrt.Choice("url", len(c05Table))
+	u := c05Table[k]
+	parent := &models.URL{Raw: c05Parent}
+	if err := parent.Parse(); err != nil {
+		panic(err)
+	}
+	url := &models.URL{Raw: u.raw}
+	var err error
+	if u.relative {
+		verifrt.Cover("relative")
+		err = NormalizeURL(url, parent)
+	} else if verifrt.Choice("with-parent", 2) == 1 {
+		err = NormalizeURL(url, parent)
+	} else {
+		err = NormalizeURL(url, nil)
+	}
+	if u.okScheme && u.okHost && u.canon != "" {
+		verifrt.Cover("accepted")
+		verifrt.Assert(err == nil, "C09 a well-formed http(s) URL with a dotted, non-loopback host is accepted")
+		verifrt.Assert(url.Raw == u.canon, "C09 the canonical text has no fragment, no surrounding quotes and is absolute")
+		verifrt.Assert(url.GetParsed() != nil && url.GetParsed().Host == u.host+u.port, "C09 the canonical text is re-parsed into the URL")
+		if len(u.raw) > 5 && u.raw[len(u.raw)-5:] == "#frag" {
+			verifrt.Cover("fragment-stripped")
+		}
+		if u.raw[0] == '"' || u.raw[0] == '\'' {
+			verifrt.Cover("quotes-trimmed")
+		}
+	} else {
+		verifrt.Cover("rejected")
+		verifrt.Assert(err != nil, "C09 only http(s) URLs with a dotted, non-loopback host are accepted")
 	}
 }
